@@ -837,6 +837,59 @@ func algebra(r *ev.Run) {
 					case !eq(observe(ba), a.members()) || !eq(observe(bc), c.members()):
 						bad = "an algebra operation modified its operand"
 					}
+					if bad == "" {
+						// results are NEW sets: with distinct operands and with the same object on both sides,
+						// changing the result leaves the operands alone and changing an operand leaves the result alone
+						flip := func(x bm.Bit1024, idx int16, on bool) {
+							if on {
+								x.UnsetI16(idx)
+							} else {
+								x.SetI16(idx)
+							}
+						}
+						for oi, other := range []bm.Bit1024{bc, ba} {
+							wantOther := c.members()
+							if oi == 1 {
+								wantOther = a.members()
+							}
+							for _, opn := range []string{"And", "Or", "OrThenReverse", "Reverse"} {
+								var res bm.Bit1024
+								switch opn {
+								case "And":
+									res = ba.And(other)
+								case "Or":
+									res = ba.Or(other)
+								case "OrThenReverse":
+									res = ba.OrThenReverse(other)
+								default:
+									res = ba.Reverse()
+								}
+								before := observe(res)
+								var m set1024
+								for _, v := range before {
+									m[v] = true
+								}
+								flip(res, 5, m[5])
+								flip(res, 700, m[700])
+								if !eq(observe(ba), a.members()) || !eq(observe(other), wantOther) {
+									bad = fmt.Sprintf("changing the result of %s (same object on both sides: %v) changed an operand", opn, oi == 1)
+								}
+								flip(res, 5, !m[5])
+								flip(res, 700, !m[700])
+								flip(ba, 9, a[9])
+								if bad == "" && !eq(observe(res), before) {
+									bad = fmt.Sprintf("changing the receiver after %s (same object on both sides: %v) changed the result", opn, oi == 1)
+								}
+								flip(ba, 9, !a[9])
+								if bad != "" {
+									break
+								}
+							}
+							if bad != "" {
+								break
+							}
+						}
+					}
 					if bad != "" {
 						r.Violate(ev.Violation{Signature: "bit1024: " + bad, Scenario: "bit1024/algebra", What: fmt.Sprintf("%s for a=%v… c=%v…", bad, head(a.members()), head(c.members())), Replay: map[string]interface{}{"a": a.members(), "c": c.members()}})
 					}
@@ -853,7 +906,7 @@ func algebra(r *ev.Run) {
 
 func main() {
 	r := ev.Start("C08")
-	r.Rule("structured exhaustive families: 64-bit words (popcount<=2, >=62, all intervals, every 16-bit lane pattern and complement) through all 10 iterators and 8 GetN forms with n in {-1,0,1,2,l-1,l,l+1,64,65, MaxInt32, MaxInt-3..MaxInt, MinInt, MinInt+1, -2}, two (pos,add) settings, and sparse thresholds popcount-1/popcount/popcount+1/9 so that both traversal branches run on every word; 1024-bit bitmaps (subsets of a 12-index boundary alphabet, complements, per-word class vectors) through 8 iterators and 6 GetN forms under thresholds 0/2/9/64; Set/Unset over int16/int32 indices; And/Or/Reverse/OrThenReverse/Equal on all pairs of a subfamily; model = boolean array; distinct = (iterator, branch/threshold, n<Len, verdict) classes")
+	r.Rule("structured exhaustive families: 64-bit words (popcount<=2, >=62, all intervals, every 16-bit lane pattern and complement) through all 10 iterators and 8 GetN forms with n in {-1,0,1,2,l-1,l,l+1,64,65, MaxInt32, MaxInt-3..MaxInt, MinInt, MinInt+1, -2}, two (pos,add) settings, and sparse thresholds popcount-1/popcount/popcount+1/9 so that both traversal branches run on every word; 1024-bit bitmaps (subsets of a 12-index boundary alphabet, complements, per-word class vectors) through 8 iterators and 6 GetN forms under thresholds 0/2/9/64; Set/Unset over int16/int32 indices; And/Or/Reverse/OrThenReverse/Equal on all pairs of a subfamily incl. the same object on both sides, results independent of their operands in both directions; model = boolean array; distinct = (iterator, branch/threshold, n<Len, verdict) classes")
 	r.Assume("bit i of a Bit64 is 1<<i (the documented word layout); bitmaps are otherwise built with Set* and observed with GetNAsI16(1024)")
 	if r.Want("bit64") {
 		layer64(r)
